@@ -120,6 +120,7 @@ fn judge_file(out: &mut Out, st: &mut St, cfg: &Cfg, kind: &str, wr: Writer, pcm
     if st.cases < st.max_cases && file.len() < 12000 && pcm.len() <= MODEL_MAX_SAMPLES {
         st.cases += 1;
         out.case(dec_stream_case(file, Some(pcm), &[("src", esc("encoder")), ("cfg", cfg.json())]));
+        out.case(enc_stream_case(file, pcm, cfg.json()));
     }
 }
 
